@@ -40,11 +40,12 @@ ASSUMPTIONS = ["file kinds always carry the extension of their format"]
 
 GOOD10 = ("v10xml", "v10json", "v10yaml")
 GOOD11 = ("v11xml", "v11json", "v11yaml")
-BAD = ("empty", "text", "malformed", "othervocab")
+BAD = ("empty", "text", "malformed", "othervocab", "binary")
 EXT = {"v10xml": [".xml", ".odml"], "v11xml": [".xml", ".odml"], "v10json": [".json"],
        "v11json": [".json"], "v10yaml": [".yaml"], "v11yaml": [".yaml"],
        "empty": [".xml", ".json", ".yaml", ".odml"], "text": [".xml", ".json", ".yaml", ".odml"],
-       "malformed": [".xml", ".odml"], "othervocab": [".xml"]}
+       "malformed": [".xml", ".odml"], "othervocab": [".xml"],
+       "binary": [".xml", ".json", ".yaml", ".odml"]}
 RDF_TARGETS = ["xml", "pretty-xml", "n3", "turtle", "ttl", "ntriples", "nt", "nt11", "trig", "json-ld"]
 FC_TARGETS = RDF_TARGETS + ["v1_1", "odml"]
 
@@ -198,6 +199,10 @@ def materialise(odml, root, files):
             text = ""
         elif kind == "text":
             text = "this is not a structured document: { ] <\n"
+        elif kind == "binary":
+            with open(path, "wb") as fobj:
+                fobj.write(b"\x00\x01\xff\xfe<odML\x00 version=\x80\x81>\n\x00\x00{]\n")
+            continue
         elif kind == "malformed":
             text = '<?xml version="1.0"?>\n<odML version="1"><section><name>x</name>\n'
         else:
